@@ -485,6 +485,10 @@ def orc_c13(ctx, op, req, impl, model, spec):
     if op != "conv":
         return None
     li, loc = impl.split(" | ", 1)
+    if spec and spec.startswith("accept ") and not loc.startswith("ok"):
+        # "for every well-formed locale string the id equals what LanguageIdentifier parses from the part before the first
+        # singleton": a well-formed locale string that Locale rejects has no id at all
+        return "well-formed locale string rejected by Locale (%s): its id is not the LanguageIdentifier parsed from the part before the first singleton" % loc
     if li.startswith("ok"):
         if not loc.startswith("ok"):
             return "accepted by LanguageIdentifier, rejected by Locale"
@@ -700,7 +704,11 @@ def orc_c19(ctx, op, req, impl, model, spec):
             return "serialised string %s: %s" % (val, pr)
         return None
     if op == "serfrom":
-        r1, _, r2 = impl.partition(" | ")
+        cols = impl.split(" | ")
+        r1, r2 = cols[0], cols[1]
+        r3 = cols[2] if len(cols) > 2 else "nostr"
+        if r3 != "nostr" and r2 != "badjson" and (r1 != r3 or r2 != r3):
+            return "deserialising the JSON string gives %s, parsing the same string gives %s" % (r1 if r1 != r3 else r2, r3)
         try:
             val = json.loads(R.unhex(req.split(" ")[1]).decode("utf-8"))
             if not isinstance(val, str) and (r1.startswith("ok") or r2.startswith("ok")):
